@@ -70,7 +70,12 @@ def leaves(obj, skip=DEFAULT_SKIP, _path="", _memo=None, _out=None):
     for k in sorted(d.keys()):
         if k in skip:
             continue
-        leaves(d[k], skip, _path + "." + k, _memo, _out)
+        v = d[k]
+        if k == "_landmarks" and (v is None or (hasattr(v, "_landmark_groups") and len(v._landmark_groups) == 0)):
+            # a lazily created empty manager is observably the same as "no landmarks yet"
+            _out.append((_path + "._landmarks", ("v", "nolandmarks", 0)))
+            continue
+        leaves(v, skip, _path + "." + k, _memo, _out)
     return _out
 
 
